@@ -72,6 +72,20 @@ def gen_ty(rng, c, toml):
     return d()
 
 
+def reaches_class(schema, t, target, seen=None):
+    seen = set() if seen is None else seen
+    for c in L.ty_classes(t):
+        if c == target:
+            return True
+        if c in seen:
+            continue
+        seen.add(c)
+        for d in [c] + L.descendants(schema, c):
+            if d == target or any(reaches_class(schema, L.name_ty(schema, n), target, seen) for n in L.flat_fields(schema, d)):
+                return True
+    return False
+
+
 def gen_schema(rng):
     kind = rng.choice(KINDS)
     toml = kind == "toml" or rng.random() < 0.2     # toml-safe: no None inside lists, Optional fields default to None
@@ -81,7 +95,8 @@ def gen_schema(rng):
     kw_only = inherit or rng.random() < 0.4
     names = {}
     classes = []
-    schema = {"kind": kind, "kw_only": kw_only, "repl": rng.random() < 0.6, "toml_safe": toml, "names": names, "classes": classes}
+    schema = {"kind": kind, "kw_only": kw_only, "repl": rng.random() < 0.6, "toml_safe": toml,
+              "dialect": kind != "plain" and rng.random() < 0.3, "names": names, "classes": classes}
     lookalike = rng.random()
     for c in range(ncls):
         parent = rng.randrange(c) if (inherit and c > 0 and rng.random() < 0.5) else None
@@ -105,6 +120,14 @@ def gen_schema(rng):
         else:
             own_ctx = rng.choice([None, True, True, False])
         classes.append({"parent": parent, "own_fields": own, "own_hooks": hooks, "own_ctx": own_ctx})
+    # Config discriminators (deserialization only, outside the Coq model: oracle only)
+    if inherit and rng.random() < 0.5:
+        for c in range(ncls):
+            if (classes[c]["parent"] is None and L.descendants(schema, c) and rng.random() < 0.7
+                    and not any(reaches_class(schema, L.name_ty(schema, n), c)
+                                for d in L.descendants(schema, c) for n in L.flat_fields(schema, d))):
+                classes[c]["disc"] = True
+                schema["has_disc"] = True
     return schema
 
 
@@ -130,6 +153,8 @@ def gen_value(rng, schema, t, depth, uid, toml):
     if t[0] == "union":
         return gen_value(rng, schema, ["dc", rng.choice(t[1])], depth, uid, toml)
     c = t[1]
+    if schema["classes"][c].get("disc"):
+        c = rng.choice(L.descendants(schema, c))      # a tagged subclass
     i = uid.next()
     fs = [[n, gen_value(rng, schema, L.name_ty(schema, n), depth + 1, uid, toml)] for n in L.flat_fields(schema, c)]
     r = uid.next() if (L.has_hook(schema, c, "pre") and rng.random() < 0.35) else None
@@ -171,6 +196,8 @@ def reaches_recursive(schema, t, seen=None):
 
 def entries_for(rng, schema, root_ty, direction, thorough):
     es = []
+    if schema.get("has_disc") and direction == "ser":
+        return es
     kind = schema["kind"]
     toml_ok = schema["toml_safe"]
     if root_ty[0] == "dc" and kind != "plain":
@@ -181,6 +208,10 @@ def entries_for(rng, schema, root_ty, direction, thorough):
             es.append({"dir": direction, "via": "mixin", "method": m, "ctx": False})
             if direction == "ser" and L.ctx_on(schema, root_ty[1]):
                 es.append({"dir": direction, "via": "mixin", "method": m, "ctx": True})
+            if schema.get("dialect"):     # same calls with an (empty) call-time dialect
+                es.append({"dir": direction, "via": "mixin", "method": m, "ctx": False, "dialect": True})
+                if direction == "ser" and L.ctx_on(schema, root_ty[1]):
+                    es.append({"dir": direction, "via": "mixin", "method": m, "ctx": True, "dialect": True})
     if reaches_recursive(schema, root_ty):
         return es
     codecs = ["basic"]
@@ -198,7 +229,7 @@ def shape_key(schema, root_ty, value, entry):
         if v[0] == "list":
             return ("l", tuple(vs(x) for x in v[2]))
         return v[0]
-    s = json.dumps([schema["kind"], schema["kw_only"], schema["repl"], schema["names"], schema["classes"], root_ty,
+    s = json.dumps([schema["kind"], schema["kw_only"], schema["repl"], schema.get("dialect"), schema["names"], schema["classes"], root_ty,
                     entry], sort_keys=True) + repr(vs(value))
     return hashlib.sha1(s.encode()).hexdigest()[:16]
 
@@ -225,6 +256,16 @@ def fixed_cases():
                       {"parent": None, "own_fields": [1], "own_hooks": mk(True, True, False, False), "own_ctx": True},
                       {"parent": None, "own_fields": [2], "own_hooks": mk(True, True, False, False), "own_ctx": True}]}
     out.append((s3, ["dc", 2], ["inst", 2, 101, None, [[2, ["inst", 1, 102, None, [[1, ["int", 1]]]]]]]))
+    # Config discriminator: Base(kind-tagged subclasses), holder with List[Base] (deserialization, oracle only)
+    s4 = {"kind": "dict", "kw_only": True, "repl": True, "toml_safe": True, "has_disc": True,
+          "names": {"0": {"ty": ["int"], "default": False}, "1": {"ty": ["int"], "default": False},
+                    "2": {"ty": ["list", "list", ["dc", 0]], "default": False}},
+          "classes": [{"parent": None, "own_fields": [0], "own_hooks": mk(True, True, True, True), "own_ctx": None, "disc": True},
+                      {"parent": 0, "own_fields": [1], "own_hooks": mk(False, False, False, False), "own_ctx": None},
+                      {"parent": 0, "own_fields": [], "own_hooks": mk(False, False, True, True), "own_ctx": None},
+                      {"parent": None, "own_fields": [2], "own_hooks": mk(False, False, True, True), "own_ctx": None}]}
+    out.append((s4, ["dc", 3], ["inst", 3, 101, None, [[2, ["list", "list", [
+        ["inst", 1, 102, None, [[0, ["int", 1]], [1, ["int", 2]]]], ["inst", 2, 103, None, [[0, ["int", 3]]]]]]]]]))
     return out
 
 
@@ -317,6 +358,8 @@ def run(ctx: vlib.Ctx):
         ctx.hist("schema_features", "inheritance", int(any(k["parent"] is not None for k in schema["classes"])))
         ctx.hist("schema_features", "union", int(any(L.ty_has_union(x["ty"]) for x in schema["names"].values())))
         ctx.hist("schema_features", "repl-hooks", int(schema["repl"]))
+        ctx.hist("schema_features", "config-discriminator", int(bool(schema.get("has_disc"))))
+        ctx.hist("schema_features", "call-dialect", int(bool(schema.get("dialect"))))
         try:
             for root_ty, value in roots:
                 for direction in ("ser", "de"):
@@ -332,7 +375,7 @@ def run(ctx: vlib.Ctx):
                         t_lib += time.time() - t0
                         ctx.count(shape_key(schema, root_ty, value, entry))
                         ctx.hist("entry_points", direction + ":" + (entry.get("method") or "codec-" + entry["codec"])
-                                 + ("+context" if entry.get("ctx") else ""))
+                                 + ("+context" if entry.get("ctx") else "") + ("+dialect" if entry.get("dialect") else ""))
                         ctx.hist("root_shape", root_ty[0])
                         ctx.hist("events_per_case", str(min(len(res["log"]) // 4 * 4, 40)))
                         (ser_cases if direction == "ser" else de_cases).append((case, res, verdict))
@@ -416,6 +459,8 @@ def run(ctx: vlib.Ctx):
                 f"{'CTok' if pc else 'CNone'}, {okt}, {evs})")
 
     def render_de(case, res):
+        if case["schema"].get("has_disc"):
+            return None      # discriminators are not in the model (oracle only)
         evs = L.coq_events(res["log"])
         r = "None" if not res["ok"] else "Some " + L.coq_val(case["schema"], res["result"])
         return (f"(E{case['env']}, {L.coq_wire_typed(case['schema'], case['root_ty'], case['wire'])}, "
